@@ -10,6 +10,7 @@ CONSTANTS
   Buffered = TRUE
   Gaps = "overlap"
   DropExit = FALSE
+  FlushOnErr = TRUE
   KeepData = TRUE
   ExternalProg <- NoExternal
   Emit = FALSE
